@@ -1,6 +1,6 @@
 SPECIFICATION Spec
 CONSTANTS
   Mods = {"ma", "mb", "mc"}
-  Family = "diamond"
+  Families = {"graph3s", "diamond2", "flat2", "sample"}
 INVARIANTS TypeOK RunOnce NoReentry OneObject Provenance StarRespectsUnderscore Terminates Usable Emit
 CHECK_DEADLOCK FALSE
